@@ -247,7 +247,7 @@ func (s *Store) Drive(pol Policy, rng *rand.Rand, stop <-chan struct{}, prio fun
 		}
 		if s.parkedLen() == 0 {
 			runtime.Gosched()
-			time.Sleep(10 * time.Microsecond)
+			time.Sleep(100 * time.Microsecond) // idle: burn little CPU (monitors account the process CPU time to the library)
 			continue
 		}
 		s.settle()
